@@ -7,8 +7,8 @@
    exactly its reference list, a scaled one is the affine image of it under the accumulated (factor, offset).  Hence
    (tracked_revert_restores) every successful revert_scaling, at any point of any history, returns exactly the reference list. *)
 From Coq Require Import ZArith List QArith Qcanon Bool Lia Arith Permutation.
-From SG Require Import Base.QcUtil Model.DataSet Model.DataSetOff Proofs.DataSetVec Proofs.DataSetScale Proofs.DataSetRevert
-  Proofs.DataSetMove Proofs.DataSetTrack Proofs.DataSetOffP.
+From SG Require Import Base.QcUtil Model.DataSet Model.DataSetOff Model.DataSetStore Proofs.DataSetVec Proofs.DataSetScale Proofs.DataSetRevert
+  Proofs.DataSetMove Proofs.DataSetTrack Proofs.DataSetOffP Proofs.DataSetDerived Proofs.DataSetLabels.
 Import ListNotations.
 Open Scope Qc_scope.
 
@@ -428,20 +428,6 @@ Proof.
 Qed.
 
 (* ------------------------------------------------------------------ the store machine with ghost reference lists *)
-Inductive sop :=
-| SRange (h : nat) (lo hi : Qc) (ov : bool)
-| SFactor (h : nat) (a : arg) (ov : bool)
-| SShift (h : nat) (a : arg) (ov : bool)
-| SRevert (h : nat)
-| SShuffle (h : nat) (perm : list nat)
-| SMbf (h : nat) (idx : list nat)
-| SSplitLabels (h : nat)
-| SSplitPieces (h : nat) (p : Qc)
-| SSplitWL (h : nat)
-| SRemove (h : nat) (idx : list Z)
-| SConcat (h h2 : nat)
-| SCopy (h : nat).
-
 (* restrictions on a history: no zero scaling factor (1.0 / 0 in revert_scaling) *)
 Definition sop_ok (o : sop) : Prop := match o with SFactor _ a _ => arg_nonzero a | _ => True end.
 (* ... and, as long as concatenate does not refuse differently scaled sets itself (second repair), concatenate is only applied to an empty
@@ -508,6 +494,10 @@ Definition tstep (v : variant2) (st : list tds) (o : sop) : list tds :=
     end
   | SCopy h =>
     match nth_error st h with None => st | Some (d, R) => st ++ [(copy_o d, R)] end
+  | SRemoveLabels h p idx =>
+    match nth_error st h with None => st | Some (d, R) =>
+      if update_internal_raises (base d) then st else upd h (remove_labels_o p idx d, rl_rows idx R) st end
+  | SOneVsOthers h order => st
   end.
 
 Fixpoint trun (v : variant2) (st : list tds) (ops : list sop) : list tds :=
@@ -557,7 +547,7 @@ Proof. intros H Er. unfold remove_samples in H. rewrite Er in H. inversion H. sp
 (* ------------------------------------------------------------------ the history theorem *)
 Theorem tstep_tracked v st o : sop_adm v st o -> Forall Tracked st -> Forall Tracked (tstep v st o).
 Proof.
-  intros [Hok Hadm] Hst. destruct o as [h lo hi ov|h a ov|h a ov|h|h perm|h idx|h|h p|h|h idx|h h2|h]; cbn [tstep].
+  intros [Hok Hadm] Hst. destruct o as [h lo hi ov|h a ov|h a ov|h|h perm|h idx|h|h p|h|h idx|h h2|h|h p idx|h order]; cbn [tstep].
   - (* scale_range *)
     destruct (nth_error st h) as [[d R]|] eqn:E; [|exact Hst]. pose proof (Forall_nth_error _ _ _ _ Hst E) as T.
     destruct (scale_range_o true lo hi ov d) as [d' e] eqn:E1. apply Forall_upd; [exact Hst|]. exact (range_tracked _ _ _ _ _ _ _ T E1).
@@ -641,6 +631,14 @@ Proof.
   - (* copy *)
     destruct (nth_error st h) as [[d R]|] eqn:E; [|exact Hst]. pose proof (Forall_nth_error _ _ _ _ Hst E) as T.
     apply Forall_app. split; [exact Hst|]. constructor; [exact T | constructor].
+  - (* remove_labels *)
+    destruct (nth_error st h) as [[d R]|] eqn:E; [|exact Hst]. pose proof (Forall_nth_error _ _ _ _ Hst E) as T.
+    destruct (update_internal_raises (base d)); [exact Hst|]. apply Forall_upd; [exact Hst|].
+    unfold remove_labels_o. rewrite remove_labels_form.
+    apply (move_tracked d R _ (rl_rows idx) T); cbn [lift base soff set_rows_rebuilt rows scaled sfactor ddim]; try reflexivity;
+      [apply natural_rl_rows | left; reflexivity].
+  - (* split_one_vs_others: the store is not touched *)
+    exact Hst.
 Qed.
 
 Fixpoint hist_adm (v : variant2) (st : list tds) (ops : list sop) : Prop :=
@@ -677,7 +675,7 @@ Proof.
   assert (G : forall h, option_map fst (@nth_error tds st h) = option_map fst (@nth_error tds st' h)).
   { intro h. pose proof (@nth_error_map_fst dso (list sample) st h) as X1. pose proof (@nth_error_map_fst dso (list sample) st' h) as X2.
     rewrite H in X1. rewrite X1 in X2. exact X2. }
-  destruct o as [h lo hi ov|h a ov|h a ov|h|h perm|h idx|h|h p|h|h idx|h h2|h]; cbn [tstep];
+  destruct o as [h lo hi ov|h a ov|h a ov|h|h perm|h idx|h|h p|h|h idx|h h2|h|h p idx|h order]; cbn [tstep];
     try (pose proof (G h) as Gh; destruct (nth_error st h) as [[d R]|]; destruct (nth_error st' h) as [[d' R']|]; cbn in Gh; try discriminate;
          [injection Gh as Gh; subst d'|exact H]).
   - destruct (scale_range_o true lo hi ov d) as [x e]. rewrite !upd_map_fst. f_equal. exact H.
@@ -698,6 +696,8 @@ Proof.
     destruct (nth_error st h2) as [[d2 R2]|]; destruct (nth_error st' h2) as [[d2' R2']|]; cbn in Gh2; try discriminate; [injection Gh2 as Gh2; subst d2'|exact H].
     destruct (concatenate_o v d d2); try exact H. rewrite !map_app. f_equal. exact H.
   - rewrite !map_app. f_equal. exact H.
+  - destruct (update_internal_raises (base d)); [exact H|]. rewrite !upd_map_fst. f_equal. exact H.
+  - exact H.
 Qed.
 
 (* ------------------------------------------------------------------ frame property: value semantics of the store
@@ -708,7 +708,7 @@ Qed.
    argument-mutated.) *)
 Definition writes (o : sop) : option nat :=
   match o with
-  | SRange h _ _ _ | SFactor h _ _ | SShift h _ _ | SRevert h | SShuffle h _ | SMbf h _ | SRemove h _ => Some h
+  | SRange h _ _ _ | SFactor h _ _ | SShift h _ _ | SRevert h | SShuffle h _ | SMbf h _ | SRemove h _ | SRemoveLabels h _ _ => Some h
   | _ => None
   end.
 
@@ -722,7 +722,7 @@ Theorem tstep_frame v (st : list tds) o k : (k < length st)%nat -> writes o <> S
 Proof.
   intros Hk Hw.
   assert (Happ : forall ext : list tds, nth_error (st ++ ext) k = nth_error st k) by (intro ext; apply nth_error_app1; exact Hk).
-  destruct o as [h lo hi ov|h a ov|h a ov|h|h perm|h idx|h|h p|h|h idx|h h2|h]; cbn [tstep writes] in *;
+  destruct o as [h lo hi ov|h a ov|h a ov|h|h perm|h idx|h|h p|h|h idx|h h2|h|h p idx|h order]; cbn [tstep writes] in *;
     try (assert (Hne : k <> h) by (intro E; apply Hw; f_equal; symmetry; exact E));
     destruct (nth_error st h) as [[d R]|]; try reflexivity.
   - destruct (scale_range_o true lo hi ov d) as [d' e]. apply nth_error_upd_other. exact Hne.
@@ -739,4 +739,39 @@ Proof.
     rewrite nth_error_app1 by (rewrite upd_length; exact Hk). apply nth_error_upd_other. exact Hne.
   - destruct (nth_error st h2) as [[d2 R2]|]; [|reflexivity]. destruct (concatenate_o v d d2); try reflexivity. apply Happ.
   - apply Happ.
+  - destruct (update_internal_raises (base d)); [reflexivity|]. apply nth_error_upd_other. exact Hne.
+Qed.
+
+
+(* ------------------------------------------------------------------ tstep IS the store machine of the wire entry point
+   Model/DataSetStore.v: sstep is what Entry/C18.v executes on the decoded wire operations (repaired variant: v_offset = true);
+   tstep is sstep plus the ghost reference lists. *)
+Theorem tstep_is_sstep v (gst : list tds) o : v_offset v = true -> map fst (tstep v gst o) = sstep v (map fst gst) o.
+Proof.
+  intro Hvo. unfold sstep.
+  assert (G : forall h, nth_error (map fst gst) h = option_map fst (@nth_error tds gst h)) by (intro h; apply nth_error_map).
+  destruct o as [h lo hi ov|h a ov|h a ov|h|h perm|h idx|h|h p|h|h idx|h h2|h|h p idx|h order]; cbn [tstep sstep_res]; rewrite ?Hvo, G;
+    destruct (nth_error gst h) as [[d R]|]; cbn [option_map fst]; try reflexivity.
+  - unfold upd_state. destruct (scale_range_o true lo hi ov d) as [d' e]. cbn [fst]. apply upd_map_fst.
+  - unfold upd_state. destruct (scale_factor_o true a ov d) as [d' e]. cbn [fst]. apply upd_map_fst.
+  - unfold upd_state. destruct (shift_value_o true a ov d) as [d' e]. cbn [fst]. apply upd_map_fst.
+  - unfold upd_state. destruct (revert_o true d) as [d' e]. cbn [fst]. apply upd_map_fst.
+  - unfold upd_state. destruct (shuffle_o perm d) as [d' e]. cbn [fst]. apply upd_map_fst.
+  - unfold upd_state. destruct (mbf_o idx d) as [d' e]. cbn [fst]. apply upd_map_fst.
+  - destruct (update_internal_raises (base d) && negb (is_empty (base d))); [reflexivity|]. cbn [fst]. rewrite map_app. f_equal.
+    apply combine_map_fst. unfold split_labels_o, split_labels. rewrite !map_length. reflexivity.
+  - destruct (update_internal_raises (base d)); [reflexivity|]. destruct (split_pieces_o p d) as [x y]. cbn [fst]. rewrite map_app. reflexivity.
+  - destruct (update_internal_raises (base d)); [reflexivity|]. destruct (split_without_labels_o d) as [x y]. cbn [fst]. rewrite map_app. reflexivity.
+  - destruct (remove_samples_o v idx d) as [d' r]. destruct (remove_keep (v_base v) idx (length (rows (base d)))) as [ni keep]. cbn [fst].
+    destruct r; [rewrite map_app, upd_map_fst; reflexivity | apply upd_map_fst].
+  - rewrite G. destruct (nth_error gst h2) as [[d2 R2]|]; cbn [option_map fst]; [|reflexivity].
+    destruct (concatenate_o v d d2); cbn [fst]; try reflexivity. rewrite map_app. reflexivity.
+  - rewrite map_app. reflexivity.
+  - destruct (update_internal_raises (base d)); [reflexivity|]. cbn [fst]. apply upd_map_fst.
+  - destruct (update_internal_raises (base d) && negb (is_empty (base d))); reflexivity.
+Qed.
+
+Corollary trun_is_srun v ops : v_offset v = true -> forall gst : list tds, map fst (trun v gst ops) = srun v (map fst gst) ops.
+Proof.
+  intro Hvo. induction ops as [|o ops IH]; intro gst; [reflexivity|]. cbn [trun srun]. rewrite IH, (tstep_is_sstep v gst o Hvo). reflexivity.
 Qed.
